@@ -182,11 +182,20 @@ func drawStop(rt *rapid.T, o gen.HistOpt, kinds []string) *StopCase {
 	}
 	c.PrevOK = rapid.IntRange(0, 4).Draw(rt, "prev_ok") == 0
 	if c.PrevOK {
-		c.PrevCancel = rapid.Bool().Draw(rt, "prev_cancel")
+		switch rapid.IntRange(0, 2).Draw(rt, "prev_end") {
+		case 1:
+			c.PrevCancel = true
+		case 2:
+			c.PrevFail = true
+		}
 	}
 	switch k {
 	case "cancel_out", "cancel_in", "cancel_gate", "cancel_log", "cancel_busy", "handler_err", "handler_err_cancel", "mapper_err", "mapper_cols", "unsupported", "invalid", "undecodable":
 		c.QuietAfter = rapid.Bool().Draw(rt, "quiet_after")
+	}
+	c.CustomCtx = rapid.IntRange(0, 3).Draw(rt, "own_context_type") == 0
+	if rapid.IntRange(0, 3).Draw(rt, "chop") == 0 {
+		c.Chop = rapid.Uint32Range(1, 1<<32-1).Draw(rt, "chop_seed")
 	}
 	if rapid.IntRange(0, 4).Draw(rt, "late_deadline") == 0 {
 		c.LateDeadlineMs = rapid.IntRange(15, 40).Draw(rt, "late_deadline_ms")
@@ -207,17 +216,26 @@ func stopClasses(c *StopCase, o *StopObs) []string {
 	if o.ReaderAtStop != "" {
 		cls = append(cls, "reader-at-stop/"+o.ReaderAtStop)
 	}
-	if c.PrevOK && !c.PrevCancel {
+	if c.PrevOK && !c.PrevCancel && !c.PrevFail {
 		cls = append(cls, "after-successful-attempt")
 	}
 	if c.PrevOK && c.PrevCancel {
 		cls = append(cls, "after-cancelled-attempt")
+	}
+	if c.PrevOK && c.PrevFail {
+		cls = append(cls, "after-attempt-ended-by-handler-failure")
 	}
 	if c.PerturbWho != 0 {
 		cls = append(cls, fmt.Sprintf("perturb/who=%d/level=%d", c.PerturbWho, c.PerturbLevel))
 	}
 	if c.QuietAfter {
 		cls = append(cls, "master-silent-after-the-cause")
+	}
+	if c.Chop != 0 {
+		cls = append(cls, "bytes-arrive-in-pieces")
+	}
+	if c.CustomCtx {
+		cls = append(cls, "context-of-the-callers-own-type")
 	}
 	if len(c.H.Units) >= 400 && c.Handler == HandlerGated && c.GateCall == 1 {
 		cls = append(cls, "deep-backlog-behind-gated-first-call")
